@@ -216,3 +216,34 @@ Example ex_bo_srid_bytes : rd4 (g_putInt 4326 ex_buf 1) = [230; 16; 0; 0] /\ rd4
   rd8 (g_putLong 4607182418800017408 ex_buf BIG) = [63; 240; 0; 0; 0; 0; 0; 0] /\ g_getLong ex_buf 1 = -506097522914230529 /\
   g_getUnsigned ex_buf BIG = 4294901244 /\ idx (g_putLong 0 ex_buf 1) 8 = 247.
 Proof. vm_compute. repeat split; reflexivity. Qed.
+
+(* ---- tie G, the writer's type word and SRID word: WKBWriter::writeGeometryType / writeSRID REGENERATED from the C++ ---- *)
+From GeosV.C09 Require Import GenPreludeWW WWProofs.
+From GeosV.Gen Require WW_writeGeometryType WW_writeSRID.
+
+(* for both flavours, every Z / M / includeSRID / SRID and every geometry type code below 1000 (the bound of the sweep), the
+   generated function throws nothing and appends exactly one word whose 32-bit image is the model's type_word *)
+Theorem C09_gen_type_word : forall fl oz om inc srid code out0, (0 <= code < 1000)%Z ->
+  let st' := WW_writeGeometryType.g_writeGeometryType (wst0 fl oz om inc out0) code srid in
+  w_thrown st' = false /\
+  exists w, w_out st' = out0 ++ [w] /\
+            (w mod 2 ^ 32)%Z = Z.of_N (type_word fl (inc && negb (srid =? 0)%Z) (Z.to_N code) oz om).
+Proof. exact gen_type_word. Qed.
+Print Assumptions C09_gen_type_word.
+
+(* a flavour value that is neither enumerator throws and writes nothing *)
+Theorem C09_gen_type_word_unknown_flavour : forall f oz om inc out0 code srid,
+  f <> WW_writeGeometryType.E_wkbFlavour_wkbExtended -> f <> WW_writeGeometryType.E_wkbFlavour_wkbIso ->
+  w_thrown (WW_writeGeometryType.g_writeGeometryType (mkW f (mkOrds oz om) inc out0 false) code srid) = true.
+Proof. exact gen_type_word_unknown_flavour. Qed.
+Print Assumptions C09_gen_type_word_unknown_flavour.
+
+(* the SRID word is emitted exactly when includeSRID, SRID <> 0 and the flavour is extended (the clause of w_header) *)
+Theorem C09_gen_write_srid : forall fl oz om inc srid out0,
+  w_out (WW_writeSRID.g_writeSRID (wst0 fl oz om inc out0) srid) =
+  out0 ++ (if (inc && negb (srid =? 0)%Z) && is_ext fl then [srid] else []).
+Proof. exact gen_write_srid. Qed.
+Print Assumptions C09_gen_write_srid.
+
+Example ex_gen_type_word : last_word Ext true false true true 1 = Some (-2147483648 + 536870912 + 1)%Z /\ last_word Iso true true true true 3 = Some 3003%Z.
+Proof. exact ex_type_word. Qed.
